@@ -55,7 +55,7 @@ def base_spec():
             "lib": {"public.openTypeCategories": {"acutecomb": "mark", "gravecomb": "mark", "anusvara-deva": "mark", "nukta-deva": "mark", "A": "base", "f_i": "ligature", "ka-deva": "base", "kha-deva": "base"}}}
 
 
-MARKER = ["# Automatic Code", "# Automatic Code Start", "#automatic code", "# automatic Code", None, None]
+MARKER = ["# Automatic Code", "# Automatic Code Start", "#automatic code", "# automatic Code", None, None, "## Automatic Code", "# disabled: # Automatic Code"]  # the last two only mention the marker
 RULES = {
     "kern": ["pos A B -40;", "pos B A 10;"],
     "dist": ["pos ka-deva kha-deva -40;", "pos kha-deva ka-deva 10;"],
@@ -128,7 +128,7 @@ def fea(draw):
 def _case(draw):
     f = draw(fea())
     return {"text": f["text"], "blocks": f["blocks"], "module": draw(st.sampled_from(["ufoLib2", "defcon"])),
-            "writers": draw(st.sampled_from(["default", "default", "lib", "ellipsis", "append", "gsub-last"]))}
+            "writers": draw(st.sampled_from(["default", "default", "lib", "ellipsis", "append", "gsub-last", "ellipsis-first"]))}
 
 
 def strategy(tier):
@@ -211,7 +211,7 @@ def run_case(case, ctx):
         kw["featureWriters"] = [KernFeatureWriter(quantization=1), ...]
     elif mode == "append":
         kw["featureWriters"] = [KernFeatureWriter(mode="append"), MarkFeatureWriter(mode="append"), GdefFeatureWriter(), CursFeatureWriter(mode="append")]
-    elif mode == "gsub-last":
+    elif mode in ("gsub-last", "ellipsis-first"):
         class RecKern(KernFeatureWriter):
             def write(self, font, feaFile, compiler=None):
                 calls.append(("GPOS", "kern"))
@@ -237,6 +237,9 @@ def run_case(case, ctx):
                 return True
 
         kw["featureWriters"] = [RecKern(), RecMark(), GdefFeatureWriter(), CursFeatureWriter(), HarnessGsub()]
+        if mode == "ellipsis-first":
+            # the default (or lib) writers first, then one more writer of the caller's
+            kw["featureWriters"] = [..., HarnessGsub()]
     s = io.StringIO()
     try:
         with guard("compile without writers", allowed=(FeatureLibError,)):
@@ -261,7 +264,7 @@ def run_case(case, ctx):
     # 2. GSUB invariance
     g1, r1 = raw(t1, "GSUB")
     g0, r0 = raw(t0, "GSUB")
-    if mode != "gsub-last" and g1 != g0:
+    if mode not in ("gsub-last", "ellipsis-first") and g1 != g0:
         raise Violation("GSUB differs with and without the automatic writers", writers=mode)
     # 3./4. hand-written GPOS features
     appendmode = mode == "append"
@@ -320,6 +323,8 @@ def run_case(case, ctx):
                 ctx.label("marker-in-the-middle")
                 nontriv = True
     # 5. writer order
+    if mode == "ellipsis-first" and ("GSUB", "ss20") not in calls:
+        raise Violation("a writer listed after the ellipsis was not called", call_order=calls)
     if mode == "gsub-last":
         order = [c[0] for c in calls]
         if "GSUB" in order and order.index("GSUB") != 0:
